@@ -301,6 +301,20 @@ def rule_T8(ctx):
                 if state_dependent(n["cond"]):
                     r.finding(f0["path"], "conditional-trace:" + v, loc(n), "the %s arm of the reachability pass queues the record's reference fields only under a condition that looks at the object's state (%s): the copy pass resolves every occurrence of a record through the scratch stack and needs the children queued after each of them - a value reachable twice then fails to clone (NoMappedIndexFoundDuringClone) or is left behind by optimize" % (v, loc(n)))
     r.analysed["conditional_trace_sites"] = n_cond
+    # ---------------------------------------------------------------- T8d no way around the trace
+    # the compactor frees what the reachability pass did not reach, so it may not finish (or free anything) on a path that
+    # skipped the pass: an explicit `return` reached before any root was handed to create_index_stack is a shortcut that
+    # decides liveness by some other argument (e.g. "the newest symbol-table entry tells").
+    of0 = F.find_fns(crate="garnish_lang_simple_data", name="optimize_data_block_and_retain")
+    if of0:
+        from .rules_round3 import _d10_eval
+        def is_trace(n):
+            return n.get("k") in ("Call", "MethodCall") and last(callee(n) or n.get("m") or "") == "create_index_stack"
+        is_trace.rets = []
+        fall = _d10_eval(of0[0]["hir"], {False}, [], 0, is_trace)
+        r.examine((of0[0]["path"], "shortcuts"), True, {"fn": of0[0]["path"], "returns_before_tracing": len(is_trace.rets), "falls_through_untraced": False in fall})
+        for k_, n_ in enumerate(is_trace.rets):
+            r.finding(of0[0]["path"], "returns-before-tracing#%d" % (k_ + 1), loc(n_), "optimize returns at %s on a path on which no root was handed to the reachability pass: what is freed (or kept) on that path was decided without tracing - a symbol name, stack cell or frame the shortcut's argument overlooks is wiped while still referenced" % loc(n_))
     # ---------------------------------------------------------------- T8b roots
     of = F.find_fns(crate="garnish_lang_simple_data", name="optimize_data_block_and_retain")
     if not of:
